@@ -246,3 +246,31 @@ pub fn arg(args: &[String], name: &str) -> Option<String> {
 pub fn arg_u64(args: &[String], name: &str, default: u64) -> u64 {
     arg(args, name).and_then(|s| s.parse().ok()).unwrap_or(default)
 }
+
+/// Signer wrapper delegating to a fixture signer with overridable reserve size / OCSP / TSA behaviour.
+pub struct WrapSigner {
+    pub inner: c2pa::BoxedSigner,
+    pub reserve: Option<usize>,
+}
+impl c2pa::Signer for WrapSigner {
+    fn sign(&self, data: &[u8]) -> c2pa::Result<Vec<u8>> {
+        self.inner.sign(data)
+    }
+    fn alg(&self) -> c2pa::SigningAlg {
+        self.inner.alg()
+    }
+    fn certs(&self) -> c2pa::Result<Vec<Vec<u8>>> {
+        self.inner.certs()
+    }
+    fn reserve_size(&self) -> usize {
+        self.reserve.unwrap_or_else(|| self.inner.reserve_size())
+    }
+}
+
+pub fn sign_with(c: Context, def: &Value, fmt: &str, src: &[u8], s: &dyn c2pa::Signer) -> c2pa::Result<Vec<u8>> {
+    let mut b = Builder::from_context(c).with_definition(def.to_string().as_str())?;
+    let mut input = Cursor::new(src.to_vec());
+    let mut out = Cursor::new(Vec::new());
+    b.sign(s, fmt, &mut input, &mut out)?;
+    Ok(out.into_inner())
+}
